@@ -141,7 +141,7 @@ impl StorageData for FileStorage {
             Self::read_impl(&self.file, new_len, &mut buffer)?;
             self.wal.insert(new_len, &buffer)?;
         } else {
-            self.wal.insert(new_len, &[])?;
+            self.wal.insert(current_len, &[])?;
         }
 
         self.file.set_len(new_len)?;
